@@ -45,7 +45,7 @@ func (c c17Case) expr() string {
 		b, _ := json.Marshal(c.Templ)
 		return "$replace(s, " + c.lit() + ", " + string(b) + lim + ")"
 	case "replacefn":
-		return "$replace(s, " + c.lit() + `, function($m){"<" & $m.match & "@" & $string($m.index) & ":" & $join($m.groups, ",") & ">"}` + lim + ")"
+		return "$replace(s, " + c.lit() + `, function($m){"<$1$$" & $m.match & "$0@" & $string($m.index) & ":" & $join($m.groups, ",") & "$>"}` + lim + ")"
 	case "apply":
 		return `($all := function($m){$exists($m) ? $append([{"m": $m.match, "s": $m.start, "e": $m.end, "g": $m.groups}], $all($m.next())) : []}; $all(` + c.lit() + `(s)))`
 	case "ctx":
@@ -185,7 +185,9 @@ func c17Oracle(c c17Case) (want val.Value, wantErr bool, judged bool) {
 			if c.Op == "replace" {
 				sb.WriteString(expandTemplate(c.Templ, m.text, m.groups))
 			} else {
-				sb.WriteString(fmt.Sprintf("<%s@%d:%s>", m.text, m.start, strings.Join(m.groups, ",")))
+				// what a replacement function returns is inserted as it is: the
+				// dollar signs in it are text, not group references
+				sb.WriteString(fmt.Sprintf("<$1$$%s$0@%d:%s$>", m.text, m.start, strings.Join(m.groups, ",")))
 			}
 			pos = m.end
 		}
@@ -265,7 +267,11 @@ func init() {
 func genRegexPattern(depth int) *rapid.Generator[string] {
 	return rapid.Custom(func(t *rapid.T) string {
 		atom := func() string {
-			switch rapid.IntRange(0, 15).Draw(t, "atom") {
+			switch rapid.IntRange(0, 18).Draw(t, "atom") {
+			case 16, 17, 18:
+				// escaped metacharacters: brackets that open or close nothing, a
+				// backslash (also as the last thing before the closing delimiter)
+				return rapid.SampledFrom([]string{`\(`, `\)`, `\[`, `\]`, `\\`, `\.`, `\{`, `\}`, `\d`, `\|`, `\*`}).Draw(t, "escaped")
 			case 0, 1, 2:
 				return "a"
 			case 3, 4:
@@ -331,7 +337,7 @@ func TestC17_Random(t *testing.T) {
 	rec := begin(t, "C17", "rapid: patterns from a grammar of literals over {a,b,c,é}, '.', classes, alternation, capturing/non-capturing/nested/optional groups, quantifiers * + ? {m,n}, anchors and \\/, with every subset of the flags i m s; subjects of up to 12 characters over {a,b,c,A,B,newline,é,/} (matches, empty matches and adjacent matches are frequent); $match, $contains, $split, $replace with templates over $0..$12, $$, lone $, $+letter and text, $replace with a function, limits -1..4, the literal applied as a function with its next chain, and a context-defaulting $match; oracle = regexp.FindAllStringSubmatchIndex + a direct template expander; non-trivial = at least one match; distinct by case")
 	defer finish(t, rec)
 	pats := genRegexPattern(2)
-	subj := rapid.Map(rapid.SliceOfN(rapid.SampledFrom([]string{"a", "b", "c", "a", "b", "A", "B", "\n", "é", "/"}), 0, 12), func(p []string) string { return strings.Join(p, "") })
+	subj := rapid.Map(rapid.SliceOfN(rapid.SampledFrom([]string{"a", "b", "c", "a", "b", "A", "B", "\n", "é", "/", "a", "b", "(", "]", "\\", "1", "."}), 0, 12), func(p []string) string { return strings.Join(p, "") })
 	templ := rapid.Map(rapid.SliceOfN(rapid.SampledFrom([]string{"$0", "$1", "$2", "$3", "$10", "$12", "$11", "$$", "$", "$x", "x", "-", "$9", "<", ">", "1", "0"}), 0, 5), func(p []string) string { return strings.Join(p, "") })
 	rapidRun(t, rec, 30000, 400000, func(rt *rapid.T) {
 		c := c17Case{
